@@ -1,4 +1,5 @@
 import Wal.Model.Wire
+import Wal.Model.Reader
 /-!
 # `walmodel`: line-protocol driver around the executable model
 
@@ -87,6 +88,19 @@ def step (st : St) (toks : List String) : St × String :=
         | some r => (st, "ok " ++ showSx st.arr? r)
         | Option.none => (st, "err"))
     | _, _ => (st, "bad-request")
+  | ["read", h] =>
+    match unhex h with
+    | some text =>
+      (match readStr text with
+        | .ok e => (st, "ok " ++ showSx st.arr? e)
+        | .error .parse => (st, "perr")
+        | .error (.unsupported m) => (st, "unsup " ++ hexOfString m))
+    | Option.none => (st, "bad-request")
+  | ["read"] =>
+    (match readStr "" with
+      | .ok e => (st, "ok " ++ showSx st.arr? e)
+      | .error .parse => (st, "perr")
+      | .error (.unsupported m) => (st, "unsup " ++ hexOfString m))
   | "print" :: rest =>
     match parseSx rest with
     | some (e, []) =>
